@@ -122,6 +122,8 @@ def cases(tier, seed, prop):
         else: bad = '(' + t + ')(' + rnd.choice(['2', '1+1']) + ')'; why = 'a group directly after a group'
         if k == 5 and nums and bad.rstrip().endswith(('* / 2', '/* 2', '+ * 2')) is False and False: pass
         out.append({'s': bad, 'g': 'malformed', 'malformed': why})
+    for big in ('1' * 400 + '+1', '2*' + '9' * 5000, '1' * 310 + '.5-1'):
+        out.append({'s': big, 'g': 'huge-literal', 'nomodel': 1})
     return out
 
 
@@ -130,6 +132,7 @@ def req(case):
 
 
 def q(v):
+    if v != v or v in (float('inf'), float('-inf')): return repr(v)          # a literal beyond the doubles
     f = F(v).limit_denominator(10 ** 9); return '%d/%d' % (f.numerator, f.denominator)
 
 
@@ -227,6 +230,15 @@ def run(case, prop):
     except RecursionError: raise
     except Exception as ex:
         e = err(ex)
+    if 'malformed' not in case and len(s) < 40:
+        import types as _ty
+        for pos_ in (len(s), len(s) // 2):
+            for opts_ in ({'lookAhead': False}, {'whitespace': False, 'lookAhead': True}):
+                try: r1 = extract('a ' + s, pos_ + 2, dict(opts_))
+                except Exception as ex1: r1 = 'EXC ' + type(ex1).__name__
+                try: r2 = extract('a ' + s, pos_ + 2, _ty.MappingProxyType(dict(opts_)))
+                except Exception as ex2: r2 = 'EXC ' + type(ex2).__name__
+                if r1 != r2: viol.append('options-type| extract(%r, %d, %r) = %r with a dict, %r with the same options as a read-only mapping' % ('a ' + s, pos_ + 2, opts_, r1, r2)); break
     if e.startswith('ok'):
         try:
             v2 = evaluate(parse(s))
